@@ -466,6 +466,10 @@ class Ctx:
                        "observed": observed, "input_class": input_class, "repo": REPO}, fh, indent=1, default=_js)
         self.violations.append(path)
 
+    def enough(self, n=60):
+        """a run that has already recorded many violations need not grind on (keeps a broken tree from taking hours)"""
+        return len(self.violations) >= n
+
     def note_drift(self, what, case):
         if len(self.drift) < 20:
             self.drift.append({"what": what, "case": case})
